@@ -134,12 +134,10 @@ Print Assumptions C05_vertical_angle_range.
 (* ---- UNCLAIMED: what "the array-encoded red-black tree of viewshed.py refines the
    abstract status structure" means.  For a tree type T with the three operations
    and a representation relation R, this is the contract the sweep theorems rely on.
-   That viewshed.py's _insert_into_tree / _delete_from_tree /
-   _find_max_value_within_key satisfy it is NOT proved in full: the tree code is
-   modelled line by line in Tree.v; PropsTree.v proves that the rotations and the
-   insert fix-up preserve the tree invariant and the in-order sequence, and checks
-   the whole refinement exhaustively on a bounded domain
-   (C05_bounded_tree_refines_small); the rest is correspondence. *)
+   It is stated for TOTAL functions; the tree code is modelled line by line in Tree.v with
+   explicit fuel (partial functions), and the refinement is claimed in that form as
+   C05_rbtree_refines_status in PropsTree.v (every operation sequence, conditional on the
+   model returning); this literal Prop stays unclaimed. *)
 Definition rbtree_refines_status_statement
   (A K G N T : Type) (klt : K -> K -> bool) (ggt : G -> G -> bool)
   (nmin : N -> G) (ncontrib : N -> A -> option G)
